@@ -63,12 +63,75 @@ def arr_str(a) -> str:
     return ";".join(P.flist(r) for r in a) if a.shape[0] else "[]"
 
 
-def call_norm(ps, q, direction: str, arr):
+def out_mode(q) -> str:
+    return q.get("out", "none")
+
+
+def call_norm(ps, q, direction: str, arr, out=None):
+    """The public entry point of the query; `out` is forwarded only when the query has one (the
+    default call is made without the keyword, as most callers do)."""
+    kw = {} if out is None else {"out": out}
     if q.get("api") == "transform" and q["use_dist"] and q["minus_lb"]:
-        return ps.transform_vect(arr) if direction == "nrm" else ps.untransform_vect(arr)
+        return ps.transform_vect(arr, **kw) if direction == "nrm" else ps.untransform_vect(arr, **kw)
     if direction == "nrm":
-        return ps.normalize_vect(arr, minus_lb=q["minus_lb"], use_dist=q["use_dist"])
-    return ps.unnormalize_vect(arr, minus_lb=q["minus_lb"], use_dist=q["use_dist"])
+        return ps.normalize_vect(arr, minus_lb=q["minus_lb"], use_dist=q["use_dist"], **kw)
+    return ps.unnormalize_vect(arr, minus_lb=q["minus_lb"], use_dist=q["use_dist"], **kw)
+
+
+OUT_FILL = -7.0  # content of a distinct `out` buffer before the call
+
+
+def vector_call(ps, sh, q, direction, vecs, lines, impl, bad, notes, tag):
+    """One (un)normalisation call with the `out` mode of the query.
+
+    Observed: the returned array, the content of `out` after the call (when given) and the content
+    of the input array after the call.  Oracle (documented semantics): the returned array and `out`
+    hold the component-wise map of the ORIGINAL input values; the input array is unchanged unless
+    it is `out`.  `tag` None: second leg of a round trip (only aliasing facts are judged here, the
+    values are judged by `check_roundtrip`).  Returns the returned array, None when skipped.
+    """
+    two_d = bool(rows_of(q))
+    mode = out_mode(q)
+    arr = np.array(vecs if two_d else vecs[0], dtype=float)
+    original = arr.copy()
+    inverse = direction == "unr"
+    tbl = []
+    if q["use_dist"]:
+        for v in vecs:
+            t = P.table_entries(sh, v, inverse)
+            if t is None:
+                notes.append("thirdparty-nonfinite")
+                return None
+            tbl += t
+    buf = None if mode == "none" else arr if mode == "alias" else np.full(arr.shape, OUT_FILL)
+    ret = call_norm(ps, q, direction, arr, buf)
+    opn = direction + ("2" if two_d else "")
+    xs = ";".join(vec_str(v) for v in vecs) if two_d else vec_str(vecs[0])
+    tables = " ".join(dict.fromkeys(tbl))
+    if mode == "none":
+        lines.append(f"{opn} {int(q['minus_lb'])} {int(q['use_dist'])} {xs} {tables}")
+        impl.append(arr_str(ret))
+    else:
+        lines.append(f"{opn} {mode} {int(q['minus_lb'])} {int(q['use_dist'])} {xs} {tables}")
+        impl.append(f"ret={arr_str(ret)} out={arr_str(buf)} x={arr_str(arr)}")
+    label = tag or ("unnormalize" if inverse else "normalize")
+    if tag is not None:
+        check_map(bad, sh, vecs, ret, direction, q, tag)
+    if buf is not None:
+        # `out`: "The array to store the (un)normalized vector."
+        qq = dict(q, rows=len(vecs) if two_d else 0)
+        n0 = len(bad)
+        check_map(bad, sh, vecs, buf, direction, qq, f"{label}-out-buffer")
+        if len(bad) > n0:
+            k, m = bad[-1]
+            bad[-1] = (k, m + f" [content of the array passed as out ({'the input array itself' if mode == 'alias' else 'a distinct buffer'}) after the call; input {original.tolist()}]")
+    if mode != "alias":
+        same = arr.shape == original.shape and all(
+            (math.isnan(a) and math.isnan(b)) or a == b for a, b in zip(arr.ravel().tolist(), original.ravel().tolist())
+        )
+        if not same:
+            bad.append((f"{label}-input-modified", f"the input array was {original.tolist()} before the call and is {arr.tolist()} after it (out: {mode}; minus_lb={q['minus_lb']}, use_dist={q['use_dist']})"))
+    return ret
 
 
 def check_map(bad, sh, vecs, out, direction, q, tag):
@@ -105,6 +168,7 @@ def run_case(case: dict, want_lines: bool = True) -> dict:
     bad: list[tuple[str, str]] = []
     notes: list[str] = []
     hist: list[str] = []
+    modes: list[str] = []
     for op in case["ops"]:
         kind = op["op"]
         if kind != "q":
@@ -151,46 +215,18 @@ def run_case(case: dict, want_lines: bool = True) -> dict:
                 direction = "unr" if qk == "unr" else "nrm"
                 nrows = rows_of(q) or 1
                 vecs = [P.make_vector(sh, q["seed"] + r, direction == "unr", q["use_dist"]) for r in range(nrows)]
-                arr = np.array(vecs if rows_of(q) else vecs[0], dtype=float)
-                tbl = []
-                if q["use_dist"]:
-                    ok = True
-                    for v in vecs:
-                        t = P.table_entries(sh, v, direction == "unr")
-                        if t is None:
-                            ok = False
-                            break
-                        tbl += t
-                    if not ok:
-                        notes.append("thirdparty-nonfinite")
-                        continue
-                out = call_norm(ps, q, direction, arr)
-                opn = ("unr" if direction == "unr" else "nrm") + ("2" if rows_of(q) else "")
-                xs = ";".join(vec_str(v) for v in vecs) if rows_of(q) else vec_str(vecs[0])
-                lines.append(f"{opn} {int(q['minus_lb'])} {int(q['use_dist'])} {xs} " + " ".join(dict.fromkeys(tbl)))
-                impl.append(arr_str(out))
-                check_map(bad, sh, vecs, out, direction, q, "normalize" if direction == "nrm" else "unnormalize")
+                modes.append(f"out={out_mode(q)}:{'2-D' if rows_of(q) else '1-D'}:use_dist={int(q['use_dist'])}")
+                out = vector_call(ps, sh, q, direction, vecs, lines, impl, bad, notes, "normalize" if direction == "nrm" else "unnormalize")
+                if out is None:
+                    continue
                 if qk == "rt":
                     y = np.asarray(out, dtype=float)
                     if not np.all(np.isfinite(y)):
                         continue
                     yv = [list(map(float, r)) for r in (y if rows_of(q) else y[None, :])]
-                    tbl2 = []
-                    if q["use_dist"]:
-                        ok = True
-                        for v in yv:
-                            t = P.table_entries(sh, v, True)
-                            if t is None:
-                                ok = False
-                                break
-                            tbl2 += t
-                        if not ok:
-                            notes.append("thirdparty-nonfinite")
-                            continue
-                    back = call_norm(ps, q, "unr", y)
-                    ys = ";".join(vec_str(v) for v in yv) if rows_of(q) else vec_str(yv[0])
-                    lines.append(f"unr{'2' if rows_of(q) else ''} {int(q['minus_lb'])} {int(q['use_dist'])} {ys} " + " ".join(dict.fromkeys(tbl2)))
-                    impl.append(arr_str(back))
+                    back = vector_call(ps, sh, q, "unr", yv, lines, impl, bad, notes, None)
+                    if back is None:
+                        continue
                     check_roundtrip(bad, sh, vecs, back, q)
             elif qk == "ecdf":
                 inv = q["inverse"]
@@ -258,7 +294,7 @@ def run_case(case: dict, want_lines: bool = True) -> dict:
             bad.append((f"query-raises:{qk}", f"{qk} raised {type(e).__name__}: {e!s}"[:300] + f" on {json.dumps(q)}"))
             lines.append("view")
             impl.append(None)
-    return {"lines": lines, "impl": impl, "bad": bad, "notes": notes, "hist": hist, "dim": sh.dim(), "nvars": len(sh.vars), "nunc": len(sh.unc())}
+    return {"lines": lines, "impl": impl, "bad": bad, "notes": notes, "hist": hist, "modes": modes, "dim": sh.dim(), "nvars": len(sh.vars), "nunc": len(sh.unc())}
 
 
 def check_roundtrip(bad, sh, vecs, back, q):
@@ -418,6 +454,11 @@ def neighbours(case):
             q = dict(op)
             q["rows"] = 2 if not rows_of(op) else 0
             yield {"lib": case["lib"], "ops": ops[:i] + [q] + ops[i + 1 :]}
+            for md in P.OUT_MODES:
+                if md != out_mode(op):
+                    q = dict(op)
+                    q["out"] = md
+                    yield {"lib": case["lib"], "ops": ops[:i] + [q] + ops[i + 1 :]}
 
 
 def check_cases(res: Result, cases: list[dict], label: str) -> None:
@@ -441,6 +482,8 @@ def check_cases(res: Result, cases: list[dict], label: str) -> None:
             res.count(f"{label}:op={h}")
         for nt in r["notes"]:
             res.count(f"{label}:{nt}")
+        for md in r["modes"]:
+            res.count(f"{label}:vector-call:{md}")
         if r["nvars"] >= 2 and r["nunc"] >= 1:
             res.nontrivial(json.dumps(case, sort_keys=True))
         res.sample({"case_ops": [o.get("kind", o["op"]) for o in case["ops"]], "last_line": r["lines"][-1][:200], "impl": (r["impl"][-1] or "")[:200], "model": mod[-1][:200]})
